@@ -68,6 +68,19 @@ pub struct Case {
     pub path: Path,
     /// garbage flag values for the command-line path (parse errors, never panics)
     pub junk: Option<String>,
+    /// extra request settings to use for queries (when present, the case is about them only)
+    #[serde(default)]
+    pub extra: Option<ExtraVals>,
+}
+
+/// Values for every member of ExtraRequestSettings (None = left out; toggles 0 skip, 1 try, 2 enforce).
+#[derive(Debug, Clone, Serialize, Deserialize)]
+pub struct ExtraVals {
+    pub hostname: Option<String>,
+    pub protocol_version: Option<i32>,
+    pub players: Option<u8>,
+    pub rules: Option<u8>,
+    pub check: Option<bool>,
 }
 
 #[derive(Parser, Debug)]
@@ -126,7 +139,7 @@ impl Prop for C18 {
          succeeds and the getters return what was given (flags: whole seconds, absent = the 4 s default). Every accepted value is then used (a) in real-socket queries (Quake 3 over \
          UDP, Minecraft legacy over TCP, Valve over UDP, Eco over HTTP) against loopback servers that answer at once, with retries capped at 1 so that nanosecond read timeouts cannot loop forever, \
          and (b) with its full retry count in scripted queries of all 18 retrying entry points against a server that is silent twice and then answers: no panic (overflow checks on), \
-         and with r >= 2 the scripted query must succeed. Random cases replace one timeout flag's value by a non-numeric / negative / overflowing value or by one of many spellings of zero (00, +0, 0.0, 0e0, ...): accepted only if u64's parser accepts it and it is not zero, and then the getter must return it. non-trivial = an extreme value is present; distinct = \
+         and with r >= 2 the scripted query must succeed. Random cases also draw extra request settings (host names of any content and length, incl. multi-byte characters around byte 255 and names of 200-600 bytes; any protocol version; toggles) and use them for Minecraft Java / auto, Valve, Unreal 2, Quake, GameSpy and Eco queries: no panic. Random cases replace one timeout flag's value by a non-numeric / negative / overflowing value or by one of many spellings of zero (00, +0, 0.0, 0e0, ...): accepted only if u64's parser accepts it and it is not zero, and then the getter must return it. non-trivial = an extreme value is present; distinct = \
          digest of the case"
             .into()
     }
@@ -140,6 +153,7 @@ impl Prop for C18 {
     fn hang_secs(&self) -> u64 { 90 }
 
     fn strategy(&self, _tier: Tier) -> BoxedStrategy<Case> {
+        let timeouts = {
         let d = || prop::sample::select(DURS.to_vec());
         (d(), d(), d(), prop_oneof![prop::sample::select(RETRIES.to_vec()), any::<usize>()], prop::sample::select(vec![Path::New, Path::Clap, Path::Serde]),
          prop::option::of(prop_oneof![
@@ -149,18 +163,33 @@ impl Prop for C18 {
              2 => "[+]?0{1,30}",
              2 => "[+-]?[0-9]{0,3}[.eE_x][0-9]{0,3}",
          ]))
-            .prop_map(|(read, write, connect, retries, path, junk)| Case { read, write, connect, retries, path, junk: if path == Path::Clap { junk } else { None } })
+            .prop_map(|(read, write, connect, retries, path, junk)| Case { read, write, connect, retries, path, junk: if path == Path::Clap { junk } else { None }, extra: None })
+        };
+        // extra request settings: host names of any length and content (incl. multi-byte characters around byte 255), any protocol version, toggles
+        let host = prop_oneof![
+            3 => "\\PC{0,40}".prop_map(|s| s),
+            2 => (1usize .. 140, prop::sample::select(vec!["é", "ß", "日", "𝄞", "a"]), "[a-z.]{0,8}").prop_map(|(n, unit, tail)| format!("{}{tail}", unit.repeat(n))),
+            2 => (240usize .. 270, prop::sample::select(vec!["é", "日", "𝄞"])).prop_map(|(n, unit)| format!("{}{unit}{unit}", "a".repeat(n))),
+            1 => "[a-z0-9.-]{200,600}".prop_map(|s| s),
+            1 => Just(String::new()),
+        ];
+        let extra = (prop::option::weighted(0.8, host), prop::option::of(prop_oneof![Just(-1i32), Just(0), Just(i32::MAX), Just(i32::MIN), any::<i32>()]), prop::option::of(0u8 .. 3), prop::option::of(0u8 .. 3), prop::option::of(any::<bool>()))
+            .prop_map(|(hostname, protocol_version, players, rules, check)| Case {
+                read: Dur::Absent, write: Dur::Absent, connect: Dur::Absent, retries: 0, path: Path::Default, junk: None,
+                extra: Some(ExtraVals { hostname, protocol_version, players, rules, check }),
+            });
+        prop_oneof![3 => timeouts, 1 => extra]
             .boxed()
     }
 
     fn enumerated<'a>(&'a self, _tier: Tier, shard: usize, nshards: usize) -> Box<dyn Iterator<Item = Case> + 'a> {
-        let mut v = vec![Case { read: Dur::Absent, write: Dur::Absent, connect: Dur::Absent, retries: 0, path: Path::Default, junk: None }];
+        let mut v = vec![Case { read: Dur::Absent, write: Dur::Absent, connect: Dur::Absent, retries: 0, path: Path::Default, junk: None, extra: None }];
         for read in DURS {
             for write in DURS {
                 for connect in DURS {
                     for retries in RETRIES {
                         for path in [Path::New, Path::Clap, Path::Serde] {
-                            v.push(Case { read, write, connect, retries, path, junk: None });
+                            v.push(Case { read, write, connect, retries, path, junk: None, extra: None });
                         }
                     }
                 }
@@ -173,6 +202,46 @@ impl Prop for C18 {
 
     fn run(&self, case: &Case) -> Outcome {
         let mut o = Outcome::new();
+        if let Some(x) = &case.extra {
+            // ---- every accepted extra request settings value can be used for a query
+            use gamedig::protocols::types::{ExtraRequestSettings, GatherToggle};
+            let tog = |v: u8| match v { 0 => GatherToggle::Skip, 1 => GatherToggle::Try, _ => GatherToggle::Enforce };
+            let mut extra = ExtraRequestSettings::default();
+            if let Some(h) = &x.hostname { extra = extra.set_hostname(h.clone()); }
+            if let Some(v) = x.protocol_version { extra = extra.set_protocol_version(v); }
+            if let Some(p) = x.players { extra = extra.set_gather_players(tog(p)); }
+            if let Some(r) = x.rules { extra = extra.set_gather_rules(tog(r)); }
+            if let Some(c) = x.check { extra = extra.set_check_app_id(c); }
+            o.label("extra-request-settings");
+            if let Some(h) = &x.hostname {
+                o.label(match h.len() { 0 => "host-name empty", 1 ..= 255 => "host-name <= 255 bytes", _ => "host-name > 255 bytes" });
+                if !h.is_ascii() { o.label("host-name non-ascii"); }
+            }
+            o.nontrivial = true;
+            let ip = doc_ip();
+            for game in ["minecraftjava", "minecraft", "teamfortress2", "killingfloor", "q3a", "hce"] {
+                let Some(g) = gamedig::GAMES.get(game) else { continue };
+                let entry = Entry::Generic { game: game.to_string(), extra: None };
+                let st = state_for_entry(&entry, 3);
+                let run = run_scripted(st.responder(), || gamedig::query_with_timeout_and_extra_settings(g, &ip, Some(27015), None, Some(extra.clone())).map(|_| ()));
+                if let Ended::Panic(p) = &run.ended {
+                    o.fail(format!("C18|query with accepted extra settings|panic|{}|{}", p.site(), p.class()), json!({"game": game, "extra": format!("{x:?}").chars().take(400).collect::<String>(), "panic": p}));
+                    return o;
+                }
+            }
+            // Eco takes the host name into a URL (an unusable name is an error value)
+            if let Some(server) = crate::models::eco::thread_server() {
+                let st = crate::runner::sample_one(&crate::models::eco::eco_state().boxed(), "C18-eco", 1);
+                server.set_json(&st.body());
+                let lo = IpAddr::V4(Ipv4Addr::LOCALHOST);
+                let port = server.port;
+                let run = run_plain(|| gamedig::query_with_timeout_and_extra_settings(&gamedig::GAMES["eco"], &lo, Some(port), None, Some(extra.clone())).map(|_| ()));
+                if let Ended::Panic(p) = &run.ended {
+                    o.fail(format!("C18|HTTP query with accepted extra settings|panic|{}|{}", p.site(), p.class()), json!({"extra": format!("{x:?}").chars().take(400).collect::<String>(), "panic": p}));
+                }
+            }
+            return o;
+        }
         o.label(format!("path={:?}", case.path));
         let any_zero = [case.read, case.write, case.connect].contains(&Dur::Zero);
         let extreme = any_zero || [case.read, case.write, case.connect].iter().any(|d| matches!(d, Dur::Nano | Dur::Max)) || case.retries >= usize::MAX - 1;
